@@ -37,6 +37,15 @@ func buildWorkload(p *modelParams) (forge.Eras, *gen.Mixed, uint32) {
 	default:
 		e = RandomEras(rng, true)
 	}
+	if p.AlignV202 > 0 {
+		want := uint32(p.AlignV202 - 1)
+		d := (want + 144 - e.V202%144) % 144
+		e.V202 += d
+		e.OneWaySmall += d
+		e.V204 += d
+		e.V204Burn += d
+		e.PIP10 += d
+	}
 	mo := gen.DefaultMixedOpts()
 	feat := map[string]bool{}
 	for _, f := range p.Features {
@@ -319,6 +328,14 @@ func init() {
 					ps[i].AlignV20Dev = -1
 				}
 				ps = append(ps, modelParams{Seed: c.Seed*1000 + 777, Features: []string{"c15", "quiet", "align"}, AlignV20Dev: 0})
+				// the 2.0.2 activation on, right before and right after a payout/snapshot height
+				al := []int{0, 143, 1}
+				if c.Thorough() {
+					al = []int{0, 143, 1, 2, 72, 142}
+				}
+				for i, a := range al {
+					ps = append(ps, modelParams{Seed: c.Seed*1000 + 800 + int64(i), Features: []string{"c15", "quiet"}, AlignV20Dev: -1, AlignV202: a + 1})
+				}
 				if c.Thorough() {
 					ps = append(ps, modelParams{Seed: c.Seed*1000 + 888, Features: []string{"c15", "quiet"}, Literal: true, AlignV20Dev: -1})
 				}
@@ -333,6 +350,7 @@ func init() {
 				ex := sumCounters(rs, "events_C15")
 				ex["scheduled_event_kinds"] = k
 				ex["v20dev_mod_144_values"] = al
+				ex["v202_mod_144_values"] = orch.UnionDistinct(rs, "v202_alignment")
 				return int64(len(k) + len(al)), ex
 			}, Min: 8})
 	}
